@@ -29,7 +29,7 @@ from typing import Any, Callable
 
 VERIF = Path(__file__).resolve().parent.parent
 COQ = VERIF / 'coq'
-REPO = Path('/repo')
+REPO = Path(os.environ.get('VERIF_REPO', '/repo'))  # scratch worktrees can be checked with VERIF_REPO=<dir>
 WORK = VERIF / '.work'
 COQC_TIMEOUT = 600
 
